@@ -19,6 +19,9 @@ Recv(d, len, dg) ==
   /\ inflight[d] # <<>>
   /\ Head(inflight[d]) = <<len, dg>>
   /\ inflight' = [inflight EXCEPT ![d] = Tail(@)]
+\* what the application was handed stays what it was: the bytes returned by Recv belong to the application
+\* and are not changed by later traffic (digest taken at Recv time vs digest of the same slice later)
+StillIntact(d0, d1) == d0 = d1
 Next == \E d \in Dir, len \in 0..2, dg \in {"a", "b"} : Send(d, len, dg) \/ Recv(d, len, dg)
 Spec == Init /\ [][Next]_inflight
 \* within the bounds used by the drivers nothing is ever queued behind an undelivered message
